@@ -13,6 +13,7 @@ mod e2_link;
 mod e2_malformed;
 mod e2_route;
 mod e2_sock;
+mod e2_tcp;
 mod e2_start;
 mod e2_udp;
 mod e3;
